@@ -51,8 +51,12 @@ type EvidSpec struct {
 	Power  int64  `json:"p"`
 	Height int64  `json:"h"`
 	Time   int64  `json:"t"` // unix seconds
+	TimeNs int64  `json:"tn,omitempty"`
 	Total  int64  `json:"tp"`
 }
+
+// At is the evidence timestamp.
+func (e EvidSpec) At() time.Time { return time.Unix(e.Time, e.TimeNs).UTC() }
 type BeginSpec struct {
 	Height   int64      `json:"h"`
 	Time     int64      `json:"t"` // unix seconds
@@ -82,7 +86,7 @@ func (b *BeginSpec) Request() abci.RequestBeginBlock {
 		ad, _ := hex.DecodeString(e.Addr)
 		req.ByzantineValidators = append(req.ByzantineValidators, abci.Evidence{
 			Type: tmtypes.ABCIEvidenceTypeDuplicateVote, Validator: abci.Validator{Address: ad, Power: e.Power},
-			Height: e.Height, Time: time.Unix(e.Time, 0).UTC(), TotalVotingPower: e.Total})
+			Height: e.Height, Time: e.At(), TotalVotingPower: e.Total})
 	}
 	return req
 }
